@@ -77,14 +77,20 @@ CLAIMED = {
             "mutating op every vertex is queried under several keys with caching on; oracle: answer with caching on = answer recomputed with the flag off (also for traversals/searches); "
             "graphs with warm caches are pickled and re-queried in a fresh interpreter.",
             "Process boundaries are exercised, not modelled. Filters are assumed pure.", "DESIGN.md 3/C05"),
-    "C10": ("Lean 4 proof (partial: scheduling only): the queue machine of the non-recursive pickler refines the recursive pickler for every heap and depth; three-layer correspondence (event trace vs machine, opcode stream vs dill, load-and-compare incl. fresh interpreter)",
+    "C10": ("Lean 4 proof (partial: scheduling + abstract round trip): the queue machine of the non-recursive pickler refines the recursive pickler for every heap and depth, and an abstract unpickler run on that stream rebuilds the heap up to isomorphism with sharing preserved; three-layer correspondence (event trace vs machine, opcode stream vs dill, load-and-compare incl. fresh interpreter)",
             "Theorems C10_nr_refines_rec / C10_dump_eq (for every abstract object heap, every depth and any pending queue, the deferred-save queue machine emits the recursive pickler's "
             "opcode stream up to build-pop-GET = discard-GET, with the same memo), C10_step_flat (one iteration handles one item and expands at most one object by one level: no recursion), "
-            "C10_rec_needs_depth / C10_nr_handles_depth (a chain of n objects defeats any recursion budget <= n of the recursive pickler, never the queue machine). Tie: the real pickler is "
+            "C10_rec_needs_depth / C10_nr_handles_depth (a chain of n objects defeats any recursion budget <= n of the recursive pickler, never the queue machine); LOADING side (EG.PickleLoad, "
+            "EG/Props/C10Load.lean): C10_load_roundtrip — the stack machine of the unpickler on the abstract opcodes, run on the pickler's stream for ANY heap, depth and root, leaves the image of the root "
+            "and a heap in which every pickled object is rebuilt with its kind and its ORDERED before/after children, one new object per original (shared stays shared, distinct stays distinct), the pickled set "
+            "being closed under children; cycles through instance state and tuples reachable from their own elements (the D10 shape) included; hypothesis NoReentry: no POP in the stream (no reduce met again "
+            "while its own arguments are being saved); C10_nr_load_roundtrip for the queue machine's own stream. Soft tie of the loader model: the graph it builds vs the abstract heap of the copy pickle really "
+            "loads (evidence: pickle_layers.loader_tie). Tie: the real pickler is "
             "sub-classed in the harness, the abstract heap is EXTRACTED from each real run and the real save/memoize/POP+GET event sequence is compared with the Lean machine; streams are compared "
             "with dill.dumps; copies are loaded with pickle and dill (same process, fresh interpreter, caching on/off either side, protocols 0-5) and compared field by field incl. sharing; "
             "chains far deeper than the recursion limit are serialised under a lowered limit.",
-            "PARTIAL: byte-level faithfulness, pickle/dill's loader (load o recursive-dump is an isomorphism) and the stack-equivalence behind `normalize` are trusted and only tested. "
+            "PARTIAL: byte-level faithfulness (opcode encodings, framing), the real loader's agreement with the abstract unpickler, and the stack-equivalence behind `normalize` (POP,GET vs POP_MARK,GET for a "
+            "re-entered tuple in the queue machine's own stream) are trusted and only tested. "
             "RecursionError is a runtime limit: exercised, not provable.", "DESIGN.md 3/C10"),
     "C11": ("Lean 4 proof: effect of the builder loops (members = first-mention order, one link per entry in input order, frame, validation first) via loop invariants over the reference model; exhaustive small inputs + random correspondence",
             "Theorems C11_dict_builds / C11_matrix_builds (structure `Built`: new universe, members = dedupKeepFirst of the mention sequence / side array, exactly one new link per listed pair or truthy cell, "
